@@ -21,6 +21,8 @@ type c15Case struct {
 	Text      string      `json:"text"`
 	WMuts     []gen.Mut   `json:"wire_muts"`
 	OtherSame bool        `json:"other_same"`
+	// Big, if > 0, replaces Data by a deterministic input of that many bytes
+	Big int `json:"big,omitempty"`
 }
 
 func genC15(t *rapid.T) c15Case {
@@ -31,6 +33,10 @@ func genC15(t *rapid.T) c15Case {
 		Mut:       gen.GenMut(t, "mut"),
 		Raw:       rapid.SliceOfN(rapid.Byte(), 0, 48).Draw(t, "raw"),
 		OtherSame: rapid.Bool().Draw(t, "othersame"),
+		Big:       gen.BigLen(t, "big"),
+	}
+	if c.Big > 0 {
+		c.Data = nil
 	}
 	if rapid.Bool().Draw(t, "txt") {
 		c.Text = rapid.OneOf(rapid.String(), rapid.StringMatching(`[1-9A-HJ-NP-Za-km-z]{0,60}`)).Draw(t, "text")
@@ -66,6 +72,10 @@ func c15Digest(c c15Case) []byte {
 }
 
 func checkC15(c c15Case) (o vstat.Outcome) {
+	if c.Big > 0 {
+		c.Data = gen.DetBytes("c15-data", c.Big)
+		o.Classes = append(o.Classes, "large-input")
+	}
 	dg := c15Digest(c)
 	h := &hash.Hash{HashType: hash.HashType(int32(c.HT)), Hash: dg}
 	known := c.HT >= 1 && c.HT <= 3
